@@ -56,6 +56,23 @@ class RecordingStream:
     def getvalue(self):
         return self._s.getvalue()
 
+    # the rest of the io.IOBase vocabulary (a caller may ask before it seeks or reads)
+    def seekable(self):
+        return True
+
+    def readable(self):
+        return True
+
+    def writable(self):
+        return True
+
+    def flush(self):
+        pass
+
+    @property
+    def closed(self):
+        return False
+
     # analysis helpers
     def reads(self):
         return [e for e in self.log if e[0] == "read"]
